@@ -133,6 +133,9 @@ def dispatch_table(ctx, fi: FuncInfo, subject: str, extra_values=(), allow_atoms
             if a in atom_info:
                 continue
             k = _subject_eq(a, subject)
+            if k is None and a == f'{subject} is None':
+                atom_info[a] = ('isnone', None)
+                continue
             if k is None:
                 if a in allow_atoms:
                     atom_info[a] = ('free', None)
@@ -142,17 +145,24 @@ def dispatch_table(ctx, fi: FuncInfo, subject: str, extra_values=(), allow_atoms
             if k not in consts:
                 consts.append(k)
     table = {}
-    for c in list(consts) + list(extra_values) + [Ellipsis]:
+    keys = list(consts) + [v for v in extra_values if v not in consts] + [Ellipsis]
+    if any(k == 'isnone' for k, _ in atom_info.values()):
+        keys.append(None)
+    for c in keys:
         free = [a for a, (k, _) in atom_info.items() if k == 'free']
         results = []
         for bits in itertools.product([False, True], repeat=len(free)):
-            val = {a: (kv[1] == c) for a, kv in atom_info.items() if kv[0] == 'eq'}
+            val = {a: (kv[1] == c and c is not None) for a, kv in atom_info.items() if kv[0] == 'eq'}
+            val.update({a: (c is None) for a, kv in atom_info.items() if kv[0] == 'isnone'})
             val.update(dict(zip(free, bits)))
             taken = [sp for sp in sps if G.evaluate(sp._f, val)]
             if len(taken) != 1:
                 raise AnalysisError(f'{fi.loc} {fi.qualname}: {len(taken)} paths for {subject} == {c!r}')
             results.append(taken[0])
-        if any(r is not results[0] for r in results):
+        def _shape(sp_):
+            v_ = sp_.value
+            return (sp_.end, ast.unparse(v_.func) if isinstance(v_, ast.Call) else (ast.unparse(v_) if v_ is not None else None))
+        if any(_shape(r) != _shape(results[0]) for r in results):
             raise AnalysisError(f'{fi.loc} {fi.qualname}: result for {subject} == {c!r} depends on {free}')
         sp = results[0]
         table[c] = (sp.end, sp.value, sp)
